@@ -12,7 +12,7 @@ let pc_name (p : M.pc) : string =
   | M.DTry -> "DTry" | M.DCas -> "DCas" | M.DLock -> "DLock" | M.CLock -> "CLock"
   | M.MStore -> "MStore" | M.MDrain -> "MDrain" | M.MLoad -> "MLoad" | M.MCas -> "MCas"
   | M.MStoreReq -> "MStoreReq" | M.MUnlock -> "MUnlock" | M.RLoad0 -> "RLoad" | M.Done -> "Done" | M.RdLoad -> "RdLoad"
-  | M.GLock -> "GLock" | M.GLoad -> "GLoad" | M.ILock -> "ILock" | M.IDrain -> "IDrain"
+  | M.GLock -> "GLock" | M.GLoad -> "GLoad" | M.ILock -> "ILock" | M.IDrain -> "IDrain" | M.FTry -> "FTry"
 
 (* does the implementation's position agree with the model's program counter? *)
 let agrees (impl : string) (p : M.pc) (lock_held : bool) : bool =
